@@ -16,6 +16,10 @@ func (ls LineString) Dimensions() int {
 // Reverse will reverse the line string.
 // This is done inplace, ie. it modifies the original data.
 func (ls LineString) Reverse() {
+	if len(ls) == 0 {
+		return
+	}
+
 	l := len(ls) - 1
 	for i := 0; i <= l/2; i++ {
 		ls[i], ls[l-i] = ls[l-i], ls[i]
